@@ -66,10 +66,11 @@ def enc_cm3_line(cur, prev, rnd, mode):
                 bits2.append(1)
                 lits.append(cur[x])
             work[x] = cur[x]
-    def pack(bits):
-        bits = bits + [0] * (-len(bits) % 8)
+    def pack(bits, filler=0):
+        # the unused trailing bits of the last byte belong to no pixel: an encoder may leave anything there
+        bits = bits + [filler if filler in (0, 1) else rnd.randrange(2) for _ in range(-len(bits) % 8)]
         return bytes(sum(b << (7 - k) for k, b in enumerate(bits[i:i + 8])) for i in range(0, len(bits), 8))
-    s2 = pack(bits2)
+    s2 = pack(bits2, rnd.choice((0, 1, 2)))
     if len(s2) > 127:
         return None
     return bytes([len(s2)]) + pack(sel1) + s2 + bytes(lits)
